@@ -368,6 +368,10 @@ func (s *Session) Write(b []byte) (n int, err error) {
 	for len(b) > 0 {
 		sizeToSend := mathext.Min(len(b), maxPDU)
 		if sent, err := s.writeChunk(b[:sizeToSend]); sent == 0 || err != nil {
+			// The chunks before this one are already in the send queue.
+			if !s.isClient && s.downloadBytes != nil {
+				s.downloadBytes.Add(int64(n))
+			}
 			return n, err
 		}
 		b = b[sizeToSend:]
